@@ -531,6 +531,49 @@ def influence(ctx):
     ctx.sample(sub, {"pixel": PIX[4].tolist(), "window": [0, 4], "perturbed_position": 4, "rule": "positions outside the window must not influence other positions"})
 
 
+def long_axes(ctx):
+    """Time axes longer than a 16-bit index can address (daily records of 90+ years, hourly ones of 4): grouped SPI
+    with one group equals the ungrouped result and with two groups the per-group results, also for windows that
+    start beyond position 32767."""
+    import pandas as pd
+    import xarray as xr
+    sub = "long_axes"
+    for n in (32767, 32768, 32769, 40000):
+        t = np.arange(n)
+        x = ((t * 7919) % 97 + (t % 5 == 0) * 40).astype("int16")
+        x[(t % 11) == 3] = 0
+        x[(t % 53) == 7] = ND
+        time = pd.date_range("1900-01-01", periods=n, freq="D")
+        da = xr.DataArray(x.reshape(1, 1, n), dims=("y", "x", "time"), coords={"time": time}, attrs={"nodata": ND})
+        for kw_name, kw in (("whole axis", {}), ("late window", {"calibration_begin": str(time[n - 3000].date()), "calibration_end": str(time[n - 10].date())})):
+            with warnings.catch_warnings():
+                warnings.simplefilter("ignore")
+                ref = da.hdc.algo.spi(**kw).values.reshape(n)
+                for gname, g in (("one group", np.zeros(n, int)), ("two blocks", (t >= n // 2).astype(int)), ("two interleaved groups", t % 2)):
+                    if gname != "one group" and kw:
+                        continue
+                    key = {"n": n, "window": kw_name, "groups": gname}
+                    ctx.count(sub, evaluations=1, states=1, nontrivial=1)
+                    try:
+                        got = da.hdc.algo.spi(groups=g.tolist(), **kw).values.reshape(n)
+                    except Exception as e:
+                        ctx.violation(sub, key, {"kind": "long_axes"}, f"spi(groups=<{gname}>, {kw}) on a daily axis of {n} steps raised {type(e).__name__}: {e}")
+                        continue
+                    if gname == "one group":
+                        exp = ref
+                    else:
+                        exp = np.empty(n, dtype=got.dtype)
+                        for v in (0, 1):
+                            m = np.nonzero(g == v)[0]
+                            exp[m] = da.isel(time=m).hdc.algo.spi().values.reshape(-1)
+                    if not np.array_equal(got, exp):
+                        j = int(np.nonzero(got != exp)[0][0])
+                        ctx.violation(sub, key, {"kind": "long_axes"},
+                                      f"spi(groups=<{gname}>, {kw}) on a daily axis of {n} steps differs from the {'ungrouped' if gname == 'one group' else 'per-group'} "
+                                      f"result at {int((got != exp).sum())} steps (first: step {j}, {int(got[j])} vs {int(exp[j])})")
+    ctx.sample(sub, {"lengths": [32767, 32768, 32769, 40000], "groupings": ["one group", "two blocks", "two interleaved groups"], "windows": ["whole axis", "last 3000 steps"]})
+
+
 def partitions_min2(n, maxk):
     out = []
     for lab in sse.set_partitions_labelings(n, maxk):
@@ -567,6 +610,7 @@ def run(ctx):
     far_dates(ctx)
     direct(ctx)
     influence(ctx)
+    long_axes(ctx)
 
 
 def replay(sub, case, p):
@@ -578,6 +622,8 @@ def replay(sub, case, p):
         _sequence_task(0, p)
     elif case["kind"] == "tod":
         _tod_task(tuple(case["axis"]), p)
+    elif case["kind"] == "long_axes":
+        long_axes(p)
     elif case["kind"] == "influence":
         influence(p)
     elif case["kind"] == "grp":
